@@ -4,6 +4,7 @@ import Crv.Generated.Paths
 import Crv.Proofs.Paths
 import Crv.Proofs.PathsOps
 import Crv.Proofs.PathsMachine
+import Crv.Proofs.PathsWalk
 /-!
 C20 — Work-directory discipline and clean lifecycle.
 
@@ -224,6 +225,50 @@ theorem startup_sweep (v : Bool) (urls files : List Location) (sys : Sys) (hfree
   obtain ⟨mid, r, e | e⟩ := (provision_spec v urls files sys hu hf).2 hfree
   · rw [e]; exact (provision_fs sys mid r).1
   · rw [e, (cleanup_rest mid).1]; exact (provision_fs sys mid r).1
+
+/-! ### The clean-up is a `filepath.Walk`
+
+`sweep` — the filter every statement of Part 2 is about — is an idealisation of `DeleteTempFilesIfExist`, which walks
+work_dir with a callback. `startupSweep` is that walk (children in byte-wise lexical order, `SkipDir` semantics of
+`filepath.Walk`) with the two guards of the callback as the translator reads them from the source on every run. -/
+
+/-- The callback as regenerated: `deleteIfTempFileOrDir` is called for every entry except work_dir itself, `SkipDir` is
+returned for every directory except work_dir itself (and for nothing else). Any other shape breaks this obligation. -/
+theorem walk_guards_canonical : walkDeleteGuard = "nonroot" ∧ walkSkipGuard = "dir-nonroot" :=
+  Crv.Paths.walk_guards_canonical
+
+/-- With that callback the walk never stops early: it visits every child of work_dir and removes exactly those whose
+name matches the pattern, files and directories alike. -/
+theorem walk_visits_every_child (F : Facts) (l : List (Name × Node)) :
+    walkDeleted "nonroot" "dir-nonroot" F l = (l.filter (fun e => matchesTemp F e.1)).map (·.1) :=
+  Crv.Paths.walk_visits_every_child F l
+
+/-- **The walk of the source is the filter.** For every listing of work_dir, `DeleteTempFilesIfExist` with the
+regenerated callback shape leaves exactly what `sweep` leaves. -/
+theorem startup_walk_is_sweep (F : Facts) (fs : Fs) : startupSweep F fs = sweep F fs :=
+  Crv.Paths.startup_walk_is_sweep F fs
+
+/-- Hence the `sweep` statement of `Provision` in the lifecycle machine is the real walk. -/
+theorem provision_sweep_is_walk (v : Bool) (urls files : List Location) (sys : Sys) :
+    provisionOp pathFacts v urls files (sys, false) ProvisionOp.sweep = ({ sys with fs := startupSweep pathFacts sys.fs }, false) := by
+  rw [Crv.Paths.startup_walk_is_sweep]; rfl
+
+/-- A callback that returns `SkipDir` for every entry, files included (guards "nonroot"/"nonroot"), is *not* the filter:
+in a work_dir with a plain file "a" and a temp-named directory "crl_x_tmp" the file is visited first, `SkipDir` for a
+non-directory makes Walk skip the rest of work_dir, and the temp-named directory survives (the walk changes nothing). -/
+theorem skip_on_files_leaves_residue :
+    walkSweep "nonroot" "nonroot" pathFacts residueFs = residueFs ∧
+    walkSweep "nonroot" "nonroot" pathFacts residueFs ≠ sweep pathFacts residueFs :=
+  Crv.Paths.skip_on_files_leaves_residue
+
+/-- A callback that never returns `SkipDir` (guards "nonroot"/"never") is not the filter either: Walk descends into the
+temp-named directory "crl_a_tmp" it has just removed, `lstat` fails there, the callback hands the error back and the walk
+is over; the temp-named file "crl_b_tmp" behind it survives. (Without a temp-named *directory* in work_dir such a callback
+does clean up: `Crv.Paths.walk_never_skip_without_temp_dirs`.) -/
+theorem descent_into_removed_dir_leaves_residue :
+    walkSweep "nonroot" "never" pathFacts abortFs = [([99, 114, 108, 95, 98, 95, 116, 109, 112], .file)] ∧
+    sweep pathFacts abortFs = [] :=
+  Crv.Paths.descent_into_removed_dir_leaves_residue
 
 /-- **Cleanup releases.** From a provisioned checker `Cleanup` removes its work_dir from the registry (other
 instances' registrations stay), leaves no database handle of its repository open, stops the ticker and ends the
